@@ -470,10 +470,20 @@ def astype(a, dt):
         return Arr(a.shape, lambda idx: as_float(f(idx)), dtype="float")
     if kind == "int":
         from .values import to_int_trunc
+        bits = _INT_BITS.get(getattr(dt, "name", None) or getattr(dt, "__name__", None) or (dt if isinstance(dt, str) else None))
+        if bits is not None and a.kind != "bool" and all(isinstance(s, int) and s == 0 for s in a.shape) is False:
+            # a cast to a sized integer type wraps silently in NumPy: every element (an arbitrary one) must fit the target type
+            e = cur()
+            idx = tuple(e.fresh_int("cast_i%d" % ax, lo=0, hi=n) for ax, n in enumerate(a.shape))
+            v = lift(to_int_trunc(f(idx)))
+            e.definedness(b_and(v >= -(2 ** bits), v <= 2 ** bits - 1), "cast to %d-bit signed integer keeps the value (no wrap-around)" % (bits + 1))
         return Arr(a.shape, lambda idx: to_int_trunc(f(idx)), dtype="int")
     if kind == "bool":
         return Arr(a.shape, lambda idx: mkbool(zb(f(idx))), dtype="bool")
     raise Unsupported("astype(%s)" % (dt,))
+
+
+_INT_BITS = {"int8": 7, "int16": 15, "int32": 31, "int64": 63}
 
 
 def dtype_kind(dt):
